@@ -84,6 +84,7 @@ def silence_probe(noise, stage, login):
 
 def run(rep, tier, seed):
     connfamily.run(rep, tier, seed, "C09", VFILE, RULE)
+    run_client_level(rep, tier, seed)
     c = consts()
     for noise in (True, False):
         for stage in STAGES:
@@ -110,8 +111,72 @@ def run(rep, tier, seed):
                     rep.violation("C09/bound", f"{where}: finish_connection() failed after {elapsed} units (1/1024 s), the armed deadline is {want}", replay)
 
 
+def client_stories():
+    from checks import c19
+    from vlib.connstories import H, HELLO, CONNECT
+    out = [s for s in c19.windows() if s.get("hook", True)]
+    pre = [("start",), ("drain",), ("resolved", None, 1), ("drain",), ("tcp", None), ("drain",)]
+    # a client call of every kind while finish_connection() is pending, then the device answers after all
+    for lg in (0, 1):
+        frames = [H(HELLO)] + ([H(CONNECT)] if lg else [])
+        for mid in ([("disc",)], [("force",)], [("cmd",)], [("req",)], [("start",)], [("disc",), ("drain",), ("adv_next",)]):
+            out.append({"scenario": pre + [("finish", lg), ("drain",)] + mid + [("drain",), ("data", frames), ("drain",), ("cmd",), ("adv_next",), ("drain",), ("adv_next",), ("drain",)],
+                        "expect": False, "scripts": {}, "keepalive": 20480, "login": bool(lg)})
+            out.append({"scenario": pre + [("finish", lg), ("drain",)] + mid + [("data", frames), ("drain",), ("adv_next",), ("drain",)],
+                        "expect": False, "scripts": {}, "keepalive": 20480, "login": bool(lg)})
+    return out
+
+
+def client_predicate(tr):
+    """every coroutine of the client ends normally or with an error of the library's hierarchy"""
+    for label, _, obs in tr.steps:
+        is_call = label in ("ccmd", "cstart", "cforce", "cdisc") or label.startswith(("call:", "cfinish"))
+        for o in obs:
+            if o.startswith("T") and "=" in o:
+                tid, res = o[1:].split("=", 1)
+                if res not in ("ok", "C") and not res.startswith("L."):
+                    return ("C09/raw-error", f"client coroutine {tid} ended with {res}, not an error of the library's connection-error hierarchy")
+            if is_call and o.startswith("X") and o not in ("XALREADY", "XNC", "XNR", "XRT") and not o.startswith("XL."):
+                return ("C09/raw-error", f"a client call raised {o[1:]}")
+    for tid, r in getattr(tr, "task_outcomes", {}).items():
+        if r[0] == "err" and not r[1].startswith("L.") and r[1] != "RT":
+            return ("C09/raw-error", f"client coroutine {tid} ended with {r[1]}")
+    return None
+
+
+def run_client_level(rep, tier, seed):
+    import random
+    from checks import c19
+    rng = random.Random(seed + 9)
+    stories = client_stories() + [c19.gen_story(rng) for _ in range(150 if tier == "quick" else 2000)]
+    for st in stories:
+        tr = c19.run_impl(st)
+        labels = [l for l, _, _ in tr.steps if l != "silent"]
+        rep.case(("client",) + tuple(labels), nontrivial=len(labels) >= 8, sample=None)
+        rep.bump("client-story")
+        bad = client_predicate(tr)
+        if bad is not None:
+            def still(s2, sig=bad[0]):
+                b2 = client_predicate(c19.run_impl(s2))
+                return b2 is not None and b2[0] == sig
+            small = connfamily.shrink(st, still) if not any(s == bad[0] for s, _, _ in rep.violations) else st
+            tr3 = c19.run_impl(small)
+            rep.violation(bad[0], (client_predicate(tr3) or bad)[1], {"kind": "client-story", "story": connfamily.story_text(small),
+                                                                      "callbacks": [(l, p, o) for l, p, o in tr3.steps if l != "silent"][-30:]})
+
+
 def replay(path):
     d = json.loads(open(path).read())["replay"]
+    if d.get("kind") == "client-story":
+        from checks import c19
+        common.setup_impl_path()
+        connfamily.N_REG = connfamily.n_registered()
+        tr = c19.run_impl(connfamily.story_from_json(d["story"]))
+        for l, p, o in tr.steps:
+            if l != "silent":
+                print(l, "|", p, "|", ",".join(o))
+        print(client_predicate(tr))
+        return 0
     if d.get("kind") == "silence-probe":
         common.setup_impl_path()
         print(silence_probe(d["noise"], d["stage"], d["login"]))
